@@ -152,6 +152,21 @@ def _mapped_over_enumerate(prog, top, closure_name):
     return False
 
 
+def _mapped_over_zip_from_zero(prog, top, closure_name):
+    """Is the closure mapped over (0..n).zip(..): the first half of its argument then counts from zero?"""
+    tix = index_of(top)
+    for _b, t in top.calls():
+        for a in t["args"][1:]:
+            r_ = tix.resolve(a)
+            if r_[0] == "rv" and r_[1]["k"] == "agg" and r_[1].get("ak") == "closure" and r_[1].get("closure") == closure_name:
+                z = tix.resolve(t["args"][0])
+                if z[0] == "call" and _last(tix.callee(z[1])) == "zip" and z[1]["args"]:
+                    left = tix.resolve(z[1]["args"][0])
+                    if left[0] == "rv" and left[1]["k"] == "agg" and (left[1].get("adt") or "").endswith("ops::Range"):
+                        return tix.resolve(left[1]["ops"][0]) == ("const", 0)
+    return False
+
+
 def _array_ops(ix, op):
     """Operands of the array literal an operand was built from, or None."""
     r = ix.resolve(op)
@@ -593,7 +608,7 @@ def run(ctx):
         rng = [derive(ix, st["rv"]["ops"][1]).names for _b, _s, st in gb.stmts() if st["k"] == "assign" and st["rv"]["k"] == "agg" and st["rv"].get("adt", "").endswith("ops::Range")]
         ctx.ob("CHAIN", "bone-count", any("bone_count" in n_ for n_ in rng), "the bone loop runs over deformer.bone_count", gb.file, gb.line)
         # start item: find() closure compares body_id with from_body_id (param 2); stop test compares with to_body_id (param 3)
-        stop_ok = start_ok = root_ok = sib_ok = same_ok = False
+        stop_ok = start_ok = root_ok = sib_ok = same_ok = start_loop_ok = False
         for bi, blk in enumerate(gb.blocks):
             t = blk["t"]
             if t["k"] != "switch" or blk["cleanup"]:
@@ -607,6 +622,8 @@ def run(ctx):
                 sides = [(P.source_name(ix, x), ix.resolve(x)) for x in (r[1]["a"], r[1]["b"])]
                 if any(n_ == "body_id" for n_, _r in sides) and any(r_[0] == "param" and r_[1] == 3 for _n, r_ in sides):
                     stop_ok = True
+                if any(n_ == "body_id" for n_, _r in sides) and any(r_[0] == "param" and r_[1] == 2 for _n, r_ in sides) and "items" in names and "next" in {_last(c_) for c_ in (da.calls | db.calls)}:
+                    start_loop_ok = True  # the start item searched with a loop over items (written in a helper or in place)
                 minus1 = any(r_[0] == "const" and r_[1] in (-1, 0xFFFF) for _n, r_ in sides)
                 if any(n_ == "parent_index" for n_, _r in sides) and minus1:
                     root_ok = True
@@ -629,7 +646,7 @@ def run(ctx):
             rv = st.get("rv") or {}
             if st["k"] == "assign" and rv.get("k") == "agg" and rv.get("ak") == "closure":
                 cap_ok = any(2 in derive(ix, o).params for o in rv["ops"]) and not any(3 in derive(ix, o).params for o in rv["ops"])
-        ctx.ob("CHAIN", "start-item", start_ok and cap_ok, "the walk starts at the item whose body_id equals from_body_id", gb.file, gb.line)
+        ctx.ob("CHAIN", "start-item", (start_ok and cap_ok) or start_loop_ok, "the walk starts at the item whose body_id equals from_body_id", gb.file, gb.line)
         ctx.ob("CHAIN", "stop-at-target", stop_ok, "the walk stops when the item's body_id equals to_body_id", gb.file, gb.line)
         ctx.ob("CHAIN", "stop-at-root", root_ok, "the walk stops at a link whose parent_index is -1", gb.file, gb.line)
         ctx.ob("CHAIN", "identity-query", same_ok, "from_body_id == to_body_id is answered with None before any lookup", gb.file, gb.line, trivial=True)
@@ -646,6 +663,23 @@ def run(ctx):
             if st["k"] == "assign" and rv.get("k") == "agg" and rv.get("adt", "").endswith("SeekFrom") and rv.get("variant") == "Start":
                 d = derive(ix, rv["ops"][0])
                 ok = "Add" in d.ops and "next" in {_last(c) for c in d.calls} and len(d.params) >= 1 and not (d.ops - {"Add"})
+        if not ok:
+            # the per-name body written as a closure mapped over the offset table: the seek target is the captured base
+            # offset plus the closure's element
+            for cb_ in prog.closures_of(sp.name):
+                cix_ = index_of(cb_)
+                mapped = False
+                for _b, t_ in sp.calls():
+                    if _last(t_.get("res")) == "map" and len(t_["args"]) == 2:
+                        k_ = ix.resolve(t_["args"][1])
+                        if k_[0] == "rv" and k_[1]["k"] == "agg" and k_[1].get("closure") == cb_.name:
+                            dm_ = derive(ix, t_["args"][0])
+                            mapped = bool(dm_.params) and {"iter", "into_iter"} & {_last(c_) for c_ in dm_.calls} and not ({"rev", "skip", "step_by", "filter"} & {_last(c_) for c_ in dm_.calls})
+                for _b, _s, st in cb_.stmts():
+                    rv = st.get("rv") or {}
+                    if st["k"] == "assign" and rv.get("k") == "agg" and rv.get("adt", "").endswith("SeekFrom") and rv.get("variant") == "Start":
+                        d = derive(cix_, rv["ops"][0])
+                        ok = mapped and "Add" in d.ops and not (d.ops - {"Add"}) and 2 in d.params and bool(d.outer_params)
         ctx.ob("STRINGS", "seek", ok, "each name is read at base_offset + its table entry", sp.file, sp.line)
         it = wm.items.by_path.get("pbd::RacialDeformer")
         f = next((f for f in (it or {}).get("fields", []) if f["name"] == "bone_names"), None)
@@ -742,7 +776,7 @@ def run(ctx):
                     okf = bool(P.loop_var(ix, pc[0][3])) or "next" in {_last(c_) for c_ in dfi.calls}
                     if not okf and lit_b.name != tb_top.name and tb.name == lit_b.name:
                         # inside a closure mapped over positions.iter().enumerate(): the index is field 0 of its argument
-                        okf = dfi.params == {2} and not dfi.calls and not dfi.ops and any(pth and pth[0] == "#0" for pth in dfi.paths) and _mapped_over_enumerate(prog, tb_top, lit_b.name)
+                        okf = dfi.params == {2} and not dfi.calls and not dfi.ops and any(pth and pth[0] == "#0" for pth in dfi.paths) and (_mapped_over_enumerate(prog, tb_top, lit_b.name) or _mapped_over_zip_from_zero(prog, tb_top, lit_b.name))
             ctx.ob("TERA", "filename", okf, f"plate file names are formatted as {[_sshow(x) for x in fsites]} of the plate index; must be the zero-padded 4-digit index + .mdl", tb.file, tb.line)
         # writer: inverse formula inside the map closure, constants of the header
         wix = index_of(wb)
